@@ -18,6 +18,7 @@ type UnitResult struct {
 	Bounded  bool
 	Fn       *ssa.Function
 	Prefix   string
+	Instances int
 }
 
 // inlineAll makes calls to repository functions execute the callee body instead of using its
@@ -25,8 +26,18 @@ type UnitResult struct {
 var inlineAll bool
 
 // verifyUnit generates all obligations of one function or lemma harness.
-func verifyUnit(l *Loader, pkgPath, key string) (res *UnitResult) {
+func verifyUnit1(l *Loader, pkgPath, key string, fixed map[string]Val, suffix string) (res *UnitResult) {
 	res = &UnitResult{Name: pkgPath + ":" + key}
+	defer func() {
+		if suffix != "" {
+			for _, o := range res.Obls {
+				o.Name += suffix
+				for _, s := range o.Subs {
+					s.Name += suffix
+				}
+			}
+		}
+	}()
 	defer func() {
 		if r := recover(); r != nil {
 			if ee, ok := r.(*EngineError); ok {
@@ -60,6 +71,11 @@ func verifyUnit(l *Loader, pkgPath, key string) (res *UnitResult) {
 	heap0 = map[string]*Term{}
 	ex := NewExec(l, res.Name)
 	res.Exec = ex
+	ex.UseBodyOf = c.UseBody
+	ex.Hidden = map[string]bool{}
+	for _, h := range c.Hide {
+		ex.Hidden[h] = true
+	}
 	if c.Bounded > 0 {
 		ex.Bounded = true
 		ex.BoundK = c.Bounded
@@ -79,6 +95,10 @@ func verifyUnit(l *Loader, pkgPath, key string) (res *UnitResult) {
 		n := p.Name()
 		if i < len(names) {
 			n = names[i]
+		}
+		if fv, ok := fixed[n]; ok {
+			args = append(args, fv)
+			continue
 		}
 		v := freshVal("in_"+n, p.Type())
 		args = append(args, v)
@@ -101,6 +121,7 @@ func verifyUnit(l *Loader, pkgPath, key string) (res *UnitResult) {
 	for _, cl := range c.Requires {
 		ex.assume(st, env.evalBool(cl))
 	}
+	ex.applyUses(c, fn, st)
 	pre := &Obl{Name: fx0.prefix + "#cover.pre", Kind: "cover", Unit: ex.Unit, Assume: ex.Assume[:len(ex.Assume):len(ex.Assume)], Reach: True, ExpectSat: true}
 	ex.Obls = append(ex.Obls, pre)
 	entry := st.clone()
